@@ -280,6 +280,13 @@ func depthGuarded(site ssa.Instruction, top *ssa.Function, minGT int64) (bool, s
 		ins = mk
 	}
 	for _, cd := range CondsAt(ins.Block()) {
+		// the test may have been extracted into a predicate: if exhausted(depth) { return }
+		if call, isCall := cd.V.(*ssa.Call); isCall {
+			if lower, ok := predicateLowerBound(call, cd.True, top); ok && lower >= minGT {
+				return true, fmt.Sprintf("depth >= %d (by %s)", lower, call.Call.StaticCallee().Name())
+			}
+			continue
+		}
 		op, x, y, ok := BinCmp(cd.V)
 		if !ok {
 			continue
@@ -579,4 +586,74 @@ func tarjan(nodes map[*ssa.Function]bool, succ func(*ssa.Function) []*ssa.Functi
 		}
 	}
 	return out
+}
+
+// predicateLowerBound: call is pred(..., depth, ...) with a bool result, where depth is the depth
+// parameter of top; truth says on which side of the branch we are. The predicate is evaluated
+// (Walker) for depth = -3..8; if the side we are on is exactly {d >= L} within that range, L is
+// a lower bound of depth there.
+func predicateLowerBound(call *ssa.Call, truth bool, top *ssa.Function) (int64, bool) {
+	callee := call.Call.StaticCallee()
+	if callee == nil || callee.Blocks == nil || !BoolType(call.Type()) {
+		return 0, false
+	}
+	var dpar *ssa.Parameter
+	for i, a := range call.Call.Args {
+		o := ValueOrigin(a)
+		isDepth := false
+		if p, ok := o.(*ssa.Parameter); ok && p.Parent() == top && isIntType(p.Type()) {
+			isDepth = true
+		} else if p := clampOf(o); p != nil && p.Parent() == top {
+			isDepth = true
+		}
+		if isDepth && i < len(callee.Params) {
+			dpar = callee.Params[i]
+		}
+	}
+	if dpar == nil {
+		return 0, false
+	}
+	const lo, hi = -3, 8
+	var onSide []bool
+	for d := int64(lo); d <= hi; d++ {
+		var res WVal
+		got := false
+		w := &Walker{Fn: callee}
+		w.Oracle = func(v ssa.Value) (WVal, bool) {
+			if v == ssa.Value(dpar) {
+				return WInt(d), true
+			}
+			return WVal{}, false
+		}
+		w.OnInstr = func(ins ssa.Instruction, sw *Walker) bool {
+			if ret, ok := ins.(*ssa.Return); ok {
+				if len(ret.Results) == 1 {
+					if r, ok := sw.Eval(ret.Results[0]); ok && r.Kind == 'b' {
+						res, got = r, true
+					}
+				}
+				return true
+			}
+			return false
+		}
+		w.Run()
+		if !got || w.Err != "" {
+			return 0, false
+		}
+		onSide = append(onSide, res.B == truth)
+	}
+	// exactly {d >= L}
+	first := -1
+	for i, b := range onSide {
+		if b && first < 0 {
+			first = i
+		}
+		if !b && first >= 0 {
+			return 0, false
+		}
+	}
+	if first <= 0 {
+		return 0, false // never on this side, or no bound visible in the range
+	}
+	return int64(lo + first), true
 }
